@@ -22,21 +22,13 @@ impl<'a> Model<'a> {
     }
 
     pub(crate) fn fn_and(&mut self, args: &[Node], cell: CellReferenceIndex) -> CalcResult {
-        self.logical_nary(
-            args,
-            cell,
-            |acc, value| acc.unwrap_or(true) && value,
-            Some(false),
-        )
+        // No short-circuit: like Excel, an error in any argument is propagated.
+        self.logical_nary(args, cell, |acc, value| acc.unwrap_or(true) && value, None)
     }
 
     pub(crate) fn fn_or(&mut self, args: &[Node], cell: CellReferenceIndex) -> CalcResult {
-        self.logical_nary(
-            args,
-            cell,
-            |acc, value| acc.unwrap_or(false) || value,
-            Some(true),
-        )
+        // No short-circuit: like Excel, an error in any argument is propagated.
+        self.logical_nary(args, cell, |acc, value| acc.unwrap_or(false) || value, None)
     }
 
     pub(crate) fn fn_xor(&mut self, args: &[Node], cell: CellReferenceIndex) -> CalcResult {
